@@ -308,6 +308,9 @@ def main(chk):
     ob_algs(chk, ir)
     ob_consumers(chk, ir)
     ob_matrix(chk, ir)
+    # the two remaining consumers (authorization code at the token endpoint, access token at userinfo) are decided by C12's obligations
+    from checks.c12 import ob_token, ob_userinfo
+    ob_token(chk, ir); ob_userinfo(chk, ir)
 
 
 if __name__ == '__main__':
